@@ -738,6 +738,23 @@ class VAMTransmissionManagement:
             }
             self.last_lf_vam_time = now
 
+    @staticmethod
+    def _cluster_information_for_encoding(cluster_info: dict) -> dict:
+        """
+        Adapt the clustering manager's cluster information to the VAM ASN.1 types.
+
+        The manager describes the bounding box as ``{"circular": {"radius": <metres>}}``;
+        the ASN.1 ``Shape`` is a CHOICE (encoded from a ``(name, value)`` tuple) whose
+        radius is a StandardLength12b in units of 0.1 m.
+        """
+        info = dict(cluster_info["vruClusterInformation"])
+        shape = info.get("clusterBoundingBoxShape")
+        if isinstance(shape, dict) and "circular" in shape:
+            circular = dict(shape["circular"])
+            circular["radius"] = min(4095, int(circular["radius"] * 10))
+            info["clusterBoundingBoxShape"] = ("circular", circular)
+        return {"vruClusterInformation": info}
+
     def send_next_vam(self, vam: VAMMessage) -> None:
         """Encode and send *vam* via the BTP router.
 
@@ -758,7 +775,9 @@ class VAMTransmissionManagement:
         if self.clustering_manager is not None:
             cluster_info = self.clustering_manager.get_cluster_information_container()
             if cluster_info is not None:
-                params["vruClusterInformationContainer"] = cluster_info
+                params["vruClusterInformationContainer"] = (
+                    self._cluster_information_for_encoding(cluster_info)
+                )
             cluster_op = self.clustering_manager.get_cluster_operation_container()
             if cluster_op is not None:
                 params["vruClusterOperationContainer"] = cluster_op
